@@ -6,7 +6,6 @@ package main
 
 import (
 	"bytes"
-	"embed"
 	"flag"
 	"fmt"
 	"go/ast"
@@ -18,14 +17,11 @@ import (
 	"sort"
 	"strconv"
 	"strings"
-	"text/template"
 
 	"verif/engine/hook"
 	"verif/engine/rtapi"
+	"verif/engine/tmpl"
 )
-
-//go:embed tmpl/*.tmpl
-var tmplFS embed.FS
 
 func die(f string, a ...any) {
 	fmt.Fprintf(os.Stderr, "rtgen: "+f+"\n", a...)
@@ -172,14 +168,13 @@ func main() {
 		must(os.WriteFile(filepath.Join(dir, "static.go"), static, 0o644))
 		sfx := fmt.Sprintf("package %s\n\nconst vSuffix = %s\n\nconst vRangeTable = %s\n", pkg, strconv.Quote(string(suffix)), strconv.Quote(string(rangeTable)))
 		must(os.WriteFile(filepath.Join(dir, "suffix.go"), []byte(sfx), 0o644))
-		data := map[string]any{"Pkg": pkg, "Index": idx, "Types": types, "HasState": fl.HasState(), "HasMemo": fl.HasMemo()}
-		for _, name := range []string{"glue.go", "vprobe.go"} {
-			t := template.Must(template.ParseFS(tmplFS, "tmpl/"+name+".tmpl"))
-			var buf bytes.Buffer
-			if err := t.Execute(&buf, data); err != nil {
+		data := tmpl.Data{Pkg: pkg, Index: idx, Types: types, HasState: fl.HasState(), HasMemo: fl.HasMemo()}
+		for _, name := range []string{"glue.go", "vprobe.go", "run.go"} {
+			src, err := tmpl.Render(name, data)
+			if err != nil {
 				die("%v", err)
 			}
-			must(os.WriteFile(filepath.Join(dir, name), buf.Bytes(), 0o644))
+			must(os.WriteFile(filepath.Join(dir, name), src, 0o644))
 		}
 		imports = append(imports, fmt.Sprintf("\t_ \"verif/build/rt/%s\"", pkg))
 	}
